@@ -107,6 +107,8 @@ func corpusBuild(structSet, elemDefault bool) *MProgram {
 		}
 	}
 	if structSet {
+		// a second width of the required-field bitset of the fastgo reader (9 = one word + 1)
+		f.Structs = append(f.Structs, MStruct{Kind: "struct", Name: "Nine", Fields: manyRequired(9)})
 		for i := range f.Structs {
 			if f.Structs[i].Name == "Containers" {
 				f.Structs[i].Fields = append(f.Structs[i].Fields, fld(14, "si", "", tSet(tStruct("Inner"))))
